@@ -176,6 +176,29 @@ Proof.
 Qed.
 Print Assumptions C08_detects_corruption_of_diff_all_instance.
 
+(* ... and in default mode with recorded opcodes ([1,2,3,4] -> [0,1,2,3,5] with
+   the opcodes difflib returns; base [1,2,3,7]) *)
+Theorem C08_detects_corruption_of_diff_all_instance_default_mode :
+  zip ex4_cfg = false /\ ops_disjoint ex4_ops /\ snd ex4_r = [[]] /\
+  wf ex4_t1 = true /\ wf ex4_t2 = true /\ keys_nonneg ex4_t2 = true /\
+  (exists e, In e (fst ex4_r) /\ ekind e = KValue /\ differs_at ex4_t1 ex4_base (ep1 e)) /\
+  0 < snd (apply ex_conv ex_ro ex_ao ex4_d ex4_base).
+Proof.
+  assert (E : In (mkEntry KValue [PIdx 3] [PIdx 4] (Some (I 4)) (Some (I 5)) None) (fst ex4_r))
+    by (vm_compute; right; left; reflexivity).
+  assert (D : differs_at ex4_t1 ex4_base [PIdx 3])
+    by (unfold differs_at; vm_compute; eexists; split; reflexivity).
+  split; [reflexivity|]. split; [intros p xs ys; reflexivity|]. split; [reflexivity|].
+  split; [reflexivity|]. split; [reflexivity|]. split; [reflexivity|]. split.
+  - eexists. split; [exact E|]. split; [reflexivity|exact D].
+  - assert (M : zip ex4_cfg = true \/ ops_disjoint ex4_ops) by (right; intros p xs ys; reflexivity).
+    assert (T : thr_num ex4_cfg <= thr_den ex4_cfg) by (cbn; repeat constructor).
+    exact (C08_detects_corruption_of_diff_all hatom_simple (fun _ _ => []) ex4_ops no_paths no_paths ex4_cfg
+             ex_conv ex_ro ex_ao false ex4_ops ex4_t1 ex4_t2 M T eq_refl eq_refl eq_refl
+             _ ex4_base E (or_introl eq_refl) D).
+Qed.
+Print Assumptions C08_detects_corruption_of_diff_all_instance_default_mode.
+
 (* the typed reading is false: the comparison is Python !=, a base holding 2.0
    where 2 was recorded is accepted without any error *)
 Theorem C08_detects_typed_corruption_refuted :
@@ -185,6 +208,18 @@ Theorem C08_detects_typed_corruption_refuted :
     apply ex_conv ex_ro ex_ao ex_d ex_base_alias = (ex_t2, 0).
 Proof. exact ex_typed_corruption_accepted. Qed.
 Print Assumptions C08_detects_typed_corruption_refuted.
+
+(* NOT part of the property (its quantifier names values_changed / type_changes
+   locations only), recorded because the clause "never silently accepted" does
+   not extend to iterable_item_removed: [1,2,3] -> [1,2] applied to [1,2,9]
+   returns [1,2,9] without any error (implementation: same, raise_errors=True) *)
+Theorem C08_detection_does_not_extend_to_removed_items :
+  d_irem ex3_d = [([PKey (AInt 2)], I 3)] /\
+  resolve ex3_base [PKey (AInt 2)] = Some (I 9) /\ py_eqv (I 3) (I 9) = false /\
+  apply ex_conv ex_ro ex_ao ex3_d ex3_t1 = (ex3_t2, 0) /\
+  apply ex_conv ex_ro ex_ao ex3_d ex3_base = (ex3_base, 0).
+Proof. exact ex3_removed_item_mismatch_accepted. Qed.
+Print Assumptions C08_detection_does_not_extend_to_removed_items.
 
 (* the guards are satisfiable: a three-entry delta of a nested diff, its
    corrupted bases (value, type, missing key) *)
